@@ -5,6 +5,6 @@ CONSTANTS
   CR = 13
   LF = 14
   Lines <- MCLines
-  Seeds <- TinySeeds
+  Seeds <- NulSeeds
   PatternsOf <- MCPatternsOf
 INVARIANTS Emitted EmitLines
